@@ -383,6 +383,17 @@ pub enum Op {
         required: bool,
         positions: Option<Positions>,
     },
+    /// `count` shape calls on the same text that differ in one argument only - `vary` 0: the
+    /// language tag (`AAA `, `AAB `, ...), 1: the feature mask, 2: both - so that every memo keyed
+    /// on (script, language, features) receives `count` distinct keys: more than any fixed
+    /// capacity a cache might have. The result is the digest of all runs.
+    ShapeSweep {
+        text: String,
+        script: String,
+        count: u16,
+        vary: u8,
+        tuple: Option<Vec<i16>>,
+    },
     /// `gsub::features_supported` on the font's cache.
     FeaturesSupported {
         script: String,
@@ -442,6 +453,7 @@ impl Op {
             Op::LookupGlyph { .. } => "LookupGlyph",
             Op::MapGlyphs { .. } => "MapGlyphs",
             Op::Shape { .. } => "Shape",
+            Op::ShapeSweep { .. } => "ShapeSweep",
             Op::FeaturesSupported { .. } => "FeaturesSupported",
             Op::HAdvance { .. } => "HAdvance",
             Op::VAdvance { .. } => "VAdvance",
@@ -467,7 +479,7 @@ impl Op {
 
     /// Ops that belong to the shaping pipeline (C02 owns crashes in these).
     pub fn is_shaping(&self) -> bool {
-        matches!(self, Op::MapGlyphs { .. } | Op::Shape { .. })
+        matches!(self, Op::MapGlyphs { .. } | Op::Shape { .. } | Op::ShapeSweep { .. })
     }
 
     /// Ops that write fonts (C09 validates their `Ok` output).
@@ -482,6 +494,7 @@ impl Op {
     pub fn arg_len(&self) -> usize {
         match self {
             Op::MapGlyphs { text, .. } | Op::Shape { text, .. } => text.len(),
+            Op::ShapeSweep { text, count, .. } => text.len() * usize::from(*count),
             Op::GlyphNames { ids } | Op::Subset { ids } | Op::PrinceSubset { ids, .. } => {
                 ids.len() * 2
             }
